@@ -2,7 +2,8 @@
 
 1. BedrockId.tla: the reference normalisation JavaName on code point sequences and the
    validity predicate (1..16 of A-Z a-z 0-9 _).  TLC checks on every gamertag of length <= 3
-   (thorough: 4) over a hostile alphabet and on long ones around the cut, under four
+   (thorough: 4) over a hostile alphabet (incl. the case-folding lookalikes U+017F, U+212A,
+   U+0130, U+0131) and on long ones around the cut, under four
    formats, that the name is valid, the normalisation idempotent and the identity on valid
    names; a normalisation cutting at 17 must violate.  The inputs are exported.
 2. The harness formats each (format, gamertag) with fmt.Sprintf as the call site does, calls
